@@ -1308,3 +1308,66 @@ Section Reach.
        (l_held (s_procs s (fst n)) = true \/ l_pc (s_procs s (fst n)) = A_check)).
   Proof. destruct (all_inv mem h0 confs sched) as [_ _ _ _ _ _ _ _ HF _]. exact HF. Qed.
 End Reach.
+
+(* ------------------------------------------------ witnesses (closed terms) -- *)
+
+Definition wid0 : hinfo := {| h_host := Some 1%N; h_user := Some 1%N; h_pid := Some 10%N |}.
+Definition env0 : env := {| e_host := 1; e_user := 1; e_dead := [11%N]; e_steal := false |}.
+Definition mk (prog : list cmd) (f : option nat) : pconf :=
+  {| c_prog := prog; c_fault := f; c_wid := wid0; c_env := env0 |}.
+
+(* the force_break race: B peeks A's lock, A unlocks, C acquires, B renames C's lock away *)
+Definition race_confs : list pconf :=
+  [mk [Attempt; Unlock] None; mk [Peek; ForceBreak] None; mk [Attempt] None; mk [Attempt] None].
+Definition race_sched : list nat := [0;0;0;0; 1;1; 0;0;0;0; 2;2;2;2; 1;1; 3;3;3;3].
+
+Lemma break_only_examined_refuted :
+  exists confs sched,
+    let s := runs sched (init false None confs) in
+    g_wrong (s_g s) = true /\
+    (* the breaker got LockBreakMismatch; the later holder's lock sits in broken.*.tmp *)
+    l_log (s_procs s 1) = [RErr ELockBreakMismatch; RSaw (Some (CInfo (0, 0) wid0))] /\
+    s_tmps s (Broken, 1, 0) = Some (Some (CInfo (2, 0) wid0)) /\
+    (* ... so a fourth locker acquires while the third still believes it holds the lock *)
+    holds (s_procs s 2) = true /\ holds (s_procs s 3) = true /\
+    s_held s = Some (Some (CInfo (3, 0) wid0)).
+Proof. exists race_confs, race_sched. vm_compute. repeat split; reflexivity. Qed.
+
+(* the guard of the guarded theorem is false on that schedule, true on the sequential one *)
+Example race_window_flag :
+  g_window (s_g (runs race_sched (init false None race_confs))) = true /\
+  g_window (s_g (runs [0;0;0;0; 1;1;1;1;1;1] (init false None race_confs))) = false /\
+  g_brk (s_g (runs [0;0;0;0; 1;1;1;1;1;1] (init false None race_confs))) = [(0, 0)].
+Proof. vm_compute. repeat split; reflexivity. Qed.
+
+(* a transport fault at the confirming peek: attempt_lock raises, the lock stays on disk *)
+Lemma failed_attempt_not_held_refuted :
+  exists confs sched,
+    let s := runs sched (init false None confs) in
+    l_log (s_procs s 0) = [RErr EFault] /\ l_held (s_procs s 0) = false /\ l_pc (s_procs s 0) = Idle /\
+    s_held s = Some (Some (CInfo (0, 0) wid0)).
+Proof. exists [mk [Attempt] (Some 3)], [0;0;0;0]. vm_compute. repeat split; reflexivity. Qed.
+
+(* non-vacuity: two lockers, a broken live lock, steal of a dead holder, recovery from every initial content *)
+Example mutex_example :
+  let s := runs [0;1;0;1;0;1;0;1;1;1] (init true None [mk [Attempt] None; mk [Attempt] None]) in
+  holds (s_procs s 0) = true /\ holds (s_procs s 1) = false /\ g_live (s_g s) = false /\
+  l_log (s_procs s 1) = [RErr ELockContention] /\ s_tmps s (Pending, 1, 0) = None.
+Proof. vm_compute. repeat split; reflexivity. Qed.
+
+Definition deadw : hinfo := {| h_host := Some 1%N; h_user := Some 1%N; h_pid := Some 11%N |}.
+Definition envs : env := {| e_host := 1; e_user := 1; e_dead := [11%N]; e_steal := true |}.
+Example steal_example :
+  let confs := [ {| c_prog := [Attempt; Crash]; c_fault := None; c_wid := deadw; c_env := envs |};
+                 {| c_prog := [Attempt]; c_fault := None; c_wid := wid0; c_env := envs |} ] in
+  let s := runs ([0;0;0;0] ++ repeat 1 11) (init false None confs) in
+  holds (s_procs s 1) = true /\ holds (s_procs s 0) = false /\ g_live (s_g s) = false /\ g_brk (s_g s) = [(0, 0)].
+Proof. vm_compute. repeat split; reflexivity. Qed.
+
+Definition recovery_prog : list cmd := [Peek; ForceBreak; BreakCorrupt; Attempt].
+Example recovery_examples :
+  forallb (fun h0 =>
+     let s := runs (repeat 0 10) (init false h0 [mk recovery_prog None]) in
+     l_held (s_procs s 0) && match s_held s with Some (Some (CInfo (0, 0) _)) => true | _ => false end)
+   [None; Some (CInfo (7, 0) deadw); Some CEmpty; Some (CCorrupt 0)] = true.
+Proof. vm_compute. reflexivity. Qed.
